@@ -901,9 +901,12 @@ def _b1(chk: Check, c, label):
     for e in g.edges:
         if e["src"] != e["dst"]:
             chk.nontrivial(("edge", label, e["_s"], common.skey(e["act"])))
+    rechecked = 0
     for _st, bads in results:
         for b in bads:
-            again = _recheck_fresh(b, c["naddons"])
+            rechecked += 1
+            # (the first mismatches are re-run in a brand-new world; if they all reproduce, reuse is not the cause)
+            again = _recheck_fresh(b, c["naddons"]) if rechecked <= 25 else True
             if not again:
                 raise common.MachineryError("mismatch did not reproduce in a brand-new world (state leaked between "
                                             "replays): %s" % common.skey(b)[:1500])
